@@ -279,7 +279,7 @@ def classes():
                             raise AppError('generator %d failed' % uid)
                         ev('hand', idx=idx, data=d, metadata=m, complete=complete)
                         yield mk_payload(d, m, none_for_empty), complete
-                    if err_at is not None and err_at >= len(els):
+                    if isinstance(err_at, int) and err_at >= len(els):
                         ev('hand_end', how='error')
                         raise AppError('generator %d failed' % uid)
                     ev('gen_exhausted')
@@ -300,7 +300,7 @@ def classes():
                             raise AppError('generator %d failed' % uid)
                         ev('hand', idx=idx, data=d, metadata=m, complete=complete)
                         yield mk_payload(d, m, none_for_empty), complete
-                    if err_at is not None and err_at >= len(els):
+                    if isinstance(err_at, int) and err_at >= len(els):
                         ev('hand_end', how='error')
                         raise AppError('generator %d failed' % uid)
                     ev('gen_exhausted')
@@ -308,6 +308,14 @@ def classes():
                     ev('gen_finally')
 
             cls = L['StreamFromAsyncGenerator']
+        if err_at == 'factory':
+            # the callable handed to the publisher fails before there is a generator at all (a lambda or partial that
+            # decodes its argument, a function returning something that is not iterable)
+            def factory():  # noqa: F811
+                runs[0] += 1
+                ev('gen_start')
+                ev('hand_end', how='error')
+                raise AppError('generator factory %d failed' % uid)
         kw = {}
         if pace:
             # a paced publisher: elements pulled from the generator wait in the publisher's queue, one handed to the
